@@ -108,6 +108,8 @@ func checkC18(P *core.Program, R *core.Report) {
 	R.Analysed["block_roots"] = len(roots)
 	reach := unprotectedReach(P, roots)
 	R.Analysed["unprotected_block_reachable_functions"] = len(reach)
+	checkBlockedRecipients(P, R, "C18-blocked-recipient", reach)
+	checkParamRecipients(P, R, "C18-param-recipient", reach)
 	var fns []*ssa.Function
 	for fn := range reach {
 		if !core.IsGeneratedOrAux(P.File(fn.Pos())) {
